@@ -1,6 +1,9 @@
 // ---- /verif/kani/aead.rs: appended to src/aead.rs in the Kani scratch copy (never part of /repo) ----
 #[cfg(kani)]
 mod verif_kani {
+    // the crate is no_std: names needed by Kani's generated concrete-playback tests
+    extern crate std as verif_std;
+    #[allow(unused_imports)] use verif_std::{vec, vec::Vec};
     use super::*;
     use crate::kdf::HkdfSha256;
     use generic_array::typenum::{self, Unsigned};
